@@ -28,8 +28,8 @@ TRUSTED = [
     "FS plugin's read is wrapped to log read sizes",
 ]
 ASSUMPTIONS = [
-    "sharded entries: the dense result of read_object is C08's reshard_dense; their data path is exercised under C08/C07, "
-    "not here (needs a process group)",
+    "sharded entries: the dense result of read_object is C08's reshard_dense theorem; here they are exercised end to end in a "
+    "world-size-1 gloo group (several pieces of one ShardedTensor per rank, subdivided and batched)",
     "a destination tensor that cannot be viewed flat is tiled along dim 0 (tiles may exceed the budget and then run alone)",
 ]
 IMPORTS = "From TS Require Import model.Chunk.\n"
@@ -190,6 +190,7 @@ def correspond(ctx: Ctx) -> Result:
                     pass
                 res.case({"unknown_path": bad}, nontrivial=False)
         shutil.rmtree(root, ignore_errors=True)
+    check_sharded(ctx, res)
     # model tiles: compare only the ranges (lo, hi)
     cases = [(t, val([[[lo, hi] for lo, hi in r]])) for t, r in coq]
     bad, errs = coqrun.run_cases("C18_tiles", IMPORTS + "Definition obs_tile_ranges (x : list Z * bool * Z * Z * Z) : val :=\n"
@@ -202,6 +203,58 @@ def correspond(ctx: Ctx) -> Result:
         res.mismatches.append(Mismatch(CORRESPONDENCES[0], {k: meta[i][k] for k in ("path", "budget", "obj_out")}, str(coq[i])[:300], None))
     res.traces_validated += len(cases)
     return res
+
+
+def check_sharded(ctx: Ctx, res: Result):
+    """sharded entries: read_object returns the full dense tensor (world-size-1 gloo group; several pieces of one
+    ShardedTensor per rank, subdivided and batched into one slab, so that pieces share a storage location)"""
+    import torch
+    from torchsnapshot import Snapshot, StateDict
+    from props.C08 import C08Group, C08_make_sharded
+    rng = ctx.rng
+    with C08Group(ctx):
+        for i in range(ctx.n(6, 40)):
+            rows, cols = rng.choice([(8, 4), (6, 3), (9, 2), (4, 4)])
+            dtype = rng.choice([torch.float32, torch.int64, torch.int16])
+            G = torch.arange(rows * cols).reshape(rows, cols).to(dtype)
+            cuts = sorted(rng.sample(range(1, rows), rng.randint(1, min(3, rows - 1))))
+            bounds = [0] + cuts + [rows]
+            boxes = [([a, 0], [b - a, cols]) for a, b in zip(bounds, bounds[1:])]
+            sharded = C08_make_sharded(boxes, [rows, cols], [G[o[0]:o[0] + z[0]].clone() for o, z in boxes])
+            knobs = {"chunk": None, "slab": rng.choice([None, 64]), "nobatch": rng.random() < 0.3, "budget": 100000000, "conc": rng.choice([1, 16])}
+            maxshard = rng.choice([None, G.element_size() * cols, G.element_size() * cols * 2])
+            root = ctx.scratch("c18s")
+            path = os.path.join(root, "snap")
+            env_old = os.environ.get("TORCHSNAPSHOT_MAX_SHARD_SIZE_BYTES_OVERRIDE")
+            if maxshard:
+                os.environ["TORCHSNAPSHOT_MAX_SHARD_SIZE_BYTES_OVERRIDE"] = str(maxshard)
+            try:
+                with Knobs(knobs), safe_gc():
+                    Snapshot.take(path, {"state": StateDict({"foo": sharded, "n": 3})})
+                    snap = Snapshot(path)
+                    for b in [None, 1, G.element_size() * cols, 4096]:
+                        for ok in ("none", "match"):
+                            obj_out = torch.zeros(rows, cols, dtype=dtype) if ok == "match" else None
+                            replay = {"sharded": True, "rows": rows, "cols": cols, "boxes": boxes, "maxshard": maxshard, "knobs": knobs, "budget": b, "obj_out": ok}
+                            res.case({"entry": "ShardedTensorEntry", "shape": [rows, cols], "shards": len(boxes), "max_shard": maxshard,
+                                      "budget": b, "obj_out": ok, "nobatch": knobs["nobatch"]}, nontrivial=True)
+                            res.count("entry", "ShardedTensorEntry")
+                            try:
+                                got = snap.read_object("0/state/foo", obj_out=obj_out, memory_budget_bytes=b)
+                            except Exception as e:  # noqa
+                                res.failures.append(Failure(f"C18:read_object-raised:ShardedTensorEntry:{type(e).__name__}",
+                                                            f"read_object(sharded, obj_out={ok}, budget={b}) raised {type(e).__name__}: {str(e)[:160]}", replay))
+                                continue
+                            d = sg.equal_exact(got, G, "0/state/foo")
+                            if d:
+                                res.failures.append(Failure(f"C18:value-differs:ShardedTensorEntry:{ok}",
+                                                            f"read_object(sharded {rows}x{cols} in {len(boxes)} shards, max_shard={maxshard}, obj_out={ok}, budget={b}, nobatch={knobs['nobatch']}): {d}", replay))
+            finally:
+                if env_old is None:
+                    os.environ.pop("TORCHSNAPSHOT_MAX_SHARD_SIZE_BYTES_OVERRIDE", None)
+                else:
+                    os.environ["TORCHSNAPSHOT_MAX_SHARD_SIZE_BYTES_OVERRIDE"] = env_old
+                shutil.rmtree(root, ignore_errors=True)
 
 
 def replay(ctx: Ctx, data):
